@@ -10,6 +10,10 @@ R08.1 inputs are never written: for every argument whose pointee is const in the
 R08.2 fixed-extent operands: every load whose address is a fixed-extent input argument + constant stays inside
       the extent (IV 12 bytes, tweak 16, raw keys 16/24/32, key schedules 16*(Nr+1), GCM key data = sizeof the
       struct) and fixed-extent inputs are never indexed by a register.
+R08.4 tag extent: every fixed-offset store through the auth_tag argument fits the tag length known on that path
+      (auth_tag_len == 16 / 12 after the corresponding compare) and otherwise the smallest tag (8 bytes).
+R08.5 rolling-hash scan loops: every load of a stream byte indexed by the position register follows a comparison
+      of that register with the end made after its last modification.
 R08.3 rolling-hash window: in _rolling_hash2_run every address of the form buffer - w / buffer + i - w is computed
       only after the first loop has exited normally (i >= w), before that the window comes from state->history.
 """
@@ -83,6 +87,13 @@ def worker(lib, objname, extra):
             elif dt.endswith("*") or dt.endswith("* const"):
                 others.add(ARGROOTS[k])
         nst = nld = 0
+        tag_root = len_root = None
+        for k, sg in enumerate(sig):
+            if sg and k < len(ARGROOTS):
+                if sg[0] == "auth_tag":
+                    tag_root = ARGROOTS[k]
+                elif sg[0] == "auth_tag_len":
+                    len_root = ARGROOTS[k]
         for bl, b in f.blocks.items():
             for i in b:
                 av = r.maddr.get(i.addr)
@@ -93,6 +104,16 @@ def worker(lib, objname, extra):
                     nst += 1
                     if v[0] in ("sp", "fr"):
                         continue
+                    if tag_root and v[0] == "init" and v[1] == tag_root and not indexed and "{k" not in i.text:
+                        # R08.4: exactly tag_len tag bytes: on a path where auth_tag_len is known the store must fit it,
+                        # otherwise it must fit the smallest documented tag (8 bytes)
+                        limit = 8
+                        for (val, iv) in r.store_facts.get(i.addr, []):
+                            if val == ("init", len_root, 0) and iv[0] == iv[1]:
+                                limit = iv[0]
+                        out["tagstores"] = out.get("tagstores", 0) + 1
+                        if v[2] < 0 or v[2] + (size or 1) > limit:
+                            add("R08.4", name, "tag-extent", "`%s` writes tag bytes %d..%d on a path where the tag is %d bytes long" % (i.text.strip(), v[2], v[2] + (size or 1) - 1, limit), i.addr, key[1])
                     rs = absint.roots(v)
                     if rs is None:
                         out["unknown"] += 1
@@ -208,6 +229,7 @@ def run(chk):
         for k in ("stores", "loads_fixed", "funcs", "unknown"):
             tot[k] += r[k]
         tot["masked"] += r.get("masked", 0)
+        tot["tagstores"] += r.get("tagstores", 0)
         tot["indexed_table"] += r.get("indexed_table", 0)
         for fd in r["findings"]:
             chk.finding(Finding(fd["rule"], fd["obj"], fd["function"], fd["construct"], fd["message"], loc=fd["loc"]))
@@ -218,6 +240,8 @@ def run(chk):
     chk.obligations["R08.2"] = [tot["loads_fixed"], tot["loads_fixed"] - len([f for f in chk.findings if f.rule == "R08.2"])]
     for c in cand:
         chk.distinct.add(("fn", c))
+    chk.obligations["R08.4"] = [tot["tagstores"], tot["tagstores"] - len([f for f in chk.findings if f.rule == "R08.4"])]
+    chk.floor("tag stores judged", tot["tagstores"], 60)
     chk.floor("store instructions judged", tot["stores"], 10000)
     chk.floor("fixed-extent loads judged", tot["loads_fixed"], 3000)
     chk.extra["stores_with_unknown_address"] = tot["unknown"]
@@ -259,6 +283,57 @@ def run(chk):
                 chk.obligation("R08.3", ok, key=I.id, sample={"function": F.name, "line": I.line})
                 if not ok:
                     chk.finding(Finding("R08.3", "rolling_hash/rolling_hash2.c", F.name, "look-back-before-window", "an address below `buffer` (buffer - w / buffer + i - w) is formed before the first w bytes have been consumed", loc=I.loc()))
+    # ---- R08.5 rolling-hash scan loops: every stream byte load indexed by the position follows a bounds comparison
+    # of the position made after its last modification (no speculative / software-pipelined load past the end)
+    nscan = 0
+    for key, name in lib.entry_list:
+        if not re.match(r"^_rolling_hash2_run_until_(00|04)$", name):
+            continue
+        f = lib.func(key)
+        r = c19.analyse(lib, key)
+        posreg = None
+        for b in f.blocks.values():
+            for i in b:
+                av = r.maddr.get(i.addr)
+                if i.writes_mem_operand() and av is not None and av[0] == ("init", "RDI", 0) and i.op.startswith("MOV") and i.reg(5) in x86.PARENT:
+                    posreg = x86.PARENT[i.reg(5)]
+        if posreg is None:
+            chk.broke("%s: position register (stored to *idx) not found" % name)
+            continue
+        nscan += 1
+        state = {f.entry: False}
+        work = [f.entry]
+        bad = []
+        nloads = 0
+        while work:
+            bl = work.pop()
+            ok = state[bl]
+            for i in f.blocks[bl]:
+                m = i.memop()
+                if i.reads_mem_operand() and m and posreg in (x86.PARENT.get(m[0]), x86.PARENT.get(m[2])):
+                    av = r.maddr.get(i.addr)
+                    rs = absint.roots(av[0]) if av else None
+                    if rs and (("R8" in rs) or ("R9" in rs)):
+                        nloads += 1
+                        if not ok:
+                            bad.append(i)
+                if any(x86.PARENT.get(d) == posreg for d in i.explicit_defs() + i.idefs):
+                    ok = False
+                if i.op.startswith("CMP") and posreg in [x86.PARENT.get(u) for u in i.reg_uses_nomem()]:
+                    ok = True
+            for s2 in f.succ.get(bl, []):
+                if s2 not in state:
+                    state[s2] = ok
+                    work.append(s2)
+                elif state[s2] and not ok:
+                    state[s2] = False
+                    work.append(s2)
+        chk.obligation("R08.5", not bad, key=name, sample={"function": name, "position_register": posreg.lower(), "stream_loads": nloads})
+        if nloads < 4:
+            chk.broke("%s: only %d stream loads indexed by the position were recognised" % (name, nloads))
+        for i in bad[:2]:
+            chk.finding(Finding("R08.5", f.obj.name, name, "load-before-bounds-check", "`%s` reads a stream byte at the position before the position has been compared with the end since its last update: at the end of the run this reads past the buffer" % i.text.strip(), loc=f.obj.line_of(f.sec, i.addr)))
+    chk.floor("rolling-hash assembly scan loops", nscan, 2)
     return ("Provenance analysis of %d AES entry points: %d stores judged against const-pointee arguments, %d fixed-extent loads (IV 12 B, tweak 16 B, raw keys, key schedules, GCM key data) "
             "judged against their extents; rolling-hash look-back addresses dominated by the window-filled edge." % (tot["funcs"], tot["stores"], tot["loads_fixed"]))
 
